@@ -94,6 +94,20 @@ def run(model: Model, rep: Report) -> None:
         r2.check(flags == (st_, fi, eo), site(h), h.qualname, f"`{op}` paints with (stroke, fill, evenodd) = ({st_}, {fi}, {eo}) on (graphicstate, curpath)", why=f"passes {flags}")
         r2.check(closes == cl, site(h), h.qualname, f"`{op}` {'closes the subpath before painting' if cl else 'does not close the subpath'}", why=f"closes-first={closes}")
         r2.check(clears, site(h), h.qualname, f"`{op}` clears the current path on every path after painting", why="self.curpath = [] is not reached on every path: the next path would start with this one's segments")
+    # closing a subpath that is closed already adds nothing (8.5.2.1: "if the current subpath is already closed, h shall do
+    # nothing"): `re s`, `re b`, `... h s` must not end in two close segments, or the shape no longer matches the closed
+    # quadrilateral / single line patterns of paint_path
+    from .c13_ops import _guard_tests as _gt16, _prior_exits as _pe16
+
+    r15 = rep.rule("C16-R15", "TYPESTATE", "h closes an open subpath only: the close segment is appended under a test that the last segment is not a close segment already", 1)
+    hh = H("h")
+    apps = [c for c in walk_no_nested(hh.node) if isinstance(c, ast.Call) and (dotted(c.func) or "") == "self.curpath.append"]
+    if not apps:
+        raise AnchorMissing("do_h: append of the close segment not found")
+    for c in apps:
+        tests = [unparse(t) for (t, pol) in _gt16(hh, c)] + [unparse(t) for t in _pe16(hh, c)]
+        guarded = any("self.curpath[-1][0]" in t.replace(" ", "") and "'h'" in t for t in tests)
+        r15.check(guarded, site(hh, c), hh.qualname, f"{unparse(c)} : only when the last segment of the current path is not 'h'", why="a second close segment is appended to a closed subpath: `re s`, `re b`, `re h f` and `m l l l h s` end in `hh`, paint_path does not recognise the rectangle (or the single line) and reports a curve with the start point twice")
     hn = H("n")
     _, _, clears = effect(hn)
     r2.check(clears, site(hn), hn.qualname, "`n` ends the path: clears it without painting", why="curpath not cleared")
